@@ -16,6 +16,8 @@ F_FILTER = "src/CppUTest/TestFilter.cpp"
 F_UTEST = "src/CppUTest/Utest.cpp"
 F_REG = "src/CppUTest/TestRegistry.cpp"
 F_RESULT = "src/CppUTest/TestResult.cpp"
+F_RUNNER = "src/CppUTest/CommandLineTestRunner.cpp"
+F_OUTPUT = "src/CppUTest/TestOutput.cpp"
 
 # ----------------------------------------------------------------------------- tiny expression parser
 
@@ -205,6 +207,21 @@ def norm(s):
     return re.sub(r"\s+", "", s)
 
 
+def norm_keep_strings(s):
+    """whitespace removed outside string/char literals only"""
+    out = []
+    for m in re.finditer(r'"(?:\\.|[^"\\])*"|\'(?:\\.|[^\'\\])*\'|[^"\']+', s):
+        t = m.group(0)
+        out.append(t if t[0] in "\"'" else re.sub(r"\s+", "", t))
+    return "".join(out)
+
+
+def expect_shape_s(what, body, want):
+    got = norm_keep_strings(body)
+    if got != want:
+        raise TranslateError("%s changed shape: `%s` (the model was written from `%s`)" % (what, got, want))
+
+
 def expect_shape(what, body, want):
     if norm(body) != want:
         raise TranslateError("%s changed shape: `%s` (the model was written from `%s`)" % (what, norm(body), want))
@@ -307,6 +324,76 @@ def extract():
     expect_shape("UtestShellPointerArray::get",
                  function_body(utest, r"UtestShell\s*\*\s*UtestShellPointerArray::get\s*\([^)]*\)\s*const\s*\{"),
                  "if(index>=count_)returnNULLPTR;returnarrayOfTests_[index];")
+    # --- registry queries, un-registration, per-shell run-ignored
+    expect_shape("TestRegistry::unDoLastAddTest", function_body(reg, r"void\s+TestRegistry::unDoLastAddTest\s*\(\s*\)\s*\{"),
+                 "tests_=tests_?tests_->getNext():NULLPTR;")
+    expect_shape("TestRegistry::findTestWithName",
+                 function_body(reg, r"UtestShell\s*\*\s*TestRegistry::findTestWithName\s*\([^)]*\)\s*\{"),
+                 "UtestShell*current=tests_;while(current){if(current->getName()==name)returncurrent;"
+                 "current=current->getNext();}returnNULLPTR;")
+    expect_shape("TestRegistry::findTestWithGroup",
+                 function_body(reg, r"UtestShell\s*\*\s*TestRegistry::findTestWithGroup\s*\([^)]*\)\s*\{"),
+                 "UtestShell*current=tests_;while(current){if(current->getGroup()==group)returncurrent;"
+                 "current=current->getNext();}returnNULLPTR;")
+    expect_shape("TestRegistry::countTests", function_body(reg, r"size_t\s+TestRegistry::countTests\s*\(\s*\)\s*\{"),
+                 "returntests_?tests_->countTests():0;")
+    expect_shape("TestRegistry::getTestWithNext",
+                 function_body(reg, r"UtestShell\s*\*\s*TestRegistry::getTestWithNext\s*\([^)]*\)\s*\{"),
+                 "UtestShell*current=tests_;while(current&&current->getNext()!=test)current=current->getNext();returncurrent;")
+    expect_shape("IgnoredUtestShell::willRun", function_body(utest, r"bool\s+IgnoredUtestShell::willRun\s*\(\s*\)\s*const\s*\{"),
+                 "if(runIgnored_)returnUtestShell::willRun();returnfalse;")
+    expect_shape("UtestShell::willRun", function_body(utest, r"bool\s+UtestShell::willRun\s*\(\s*\)\s*const\s*\{"), "returntrue;")
+    expect_shape("UtestShell::setRunIgnored", function_body(utest, r"void\s+UtestShell::setRunIgnored\s*\(\s*\)\s*\{"), "")
+
+    # --- list modes (string literals compared verbatim)
+    reg_s = strip_comments(read(F_REG))
+    expect_shape_s("TestRegistry::listTestGroupNames",
+                   function_body(reg_s, r"void\s+TestRegistry::listTestGroupNames\s*\([^)]*\)\s*\{"),
+                   'SimpleStringgroupList;for(UtestShell*test=tests_;test!=NULLPTR;test=test->getNext()){SimpleStringgname;'
+                   'gname+="#";gname+=test->getGroup();gname+="#";if(!groupList.contains(gname)){groupList+=gname;groupList+=" ";}}'
+                   'groupList.replace("#","");if(groupList.endsWith(" "))groupList=groupList.subString(0,groupList.size()-1);'
+                   'result.print(groupList.asCharString());')
+    expect_shape_s("TestRegistry::listTestGroupAndCaseNames",
+                   function_body(reg_s, r"void\s+TestRegistry::listTestGroupAndCaseNames\s*\([^)]*\)\s*\{"),
+                   'SimpleStringgroupAndNameList;for(UtestShell*test=tests_;test!=NULLPTR;test=test->getNext()){'
+                   'if(testShouldRun(test,result)){SimpleStringgroupAndName;groupAndName+="#";groupAndName+=test->getGroup();'
+                   'groupAndName+=".";groupAndName+=test->getName();groupAndName+="#";'
+                   'if(!groupAndNameList.contains(groupAndName)){groupAndNameList+=groupAndName;groupAndNameList+=" ";}}}'
+                   'groupAndNameList.replace("#","");if(groupAndNameList.endsWith(" "))'
+                   'groupAndNameList=groupAndNameList.subString(0,groupAndNameList.size()-1);'
+                   'result.print(groupAndNameList.asCharString());')
+    expect_shape_s("TestRegistry::listTestLocations",
+                   function_body(reg_s, r"void\s+TestRegistry::listTestLocations\s*\([^)]*\)\s*\{"),
+                   'SimpleStringtestLocations;for(UtestShell*test=tests_;test!=NULLPTR;test=test->getNext()){SimpleStringtestLocation;'
+                   'testLocation+=test->getGroup();testLocation+=".";testLocation+=test->getName();testLocation+=".";'
+                   'testLocation+=test->getFile();testLocation+=".";testLocation+=StringFromFormat("%d\\n",(int)test->getLineNumber());'
+                   'testLocations+=testLocation;}result.print(testLocations.asCharString());')
+
+    # --- the repeat loop of the command line runner
+    runner = strip_comments(read(F_RUNNER))
+    expect_shape_s("CommandLineTestRunner::runAllTests",
+                   function_body(runner, r"int\s+CommandLineTestRunner::runAllTests\s*\(\s*\)\s*\{"),
+                   'initializeTestRun();size_tloopCount=0;size_tfailedTestCount=0;size_tfailedExecutionCount=0;'
+                   'size_trepeatCount=arguments_->getRepeatCount();'
+                   'if(arguments_->isListingTestGroupNames()){TestResulttr(*output_);registry_->listTestGroupNames(tr);return0;}'
+                   'if(arguments_->isListingTestGroupAndCaseNames()){TestResulttr(*output_);registry_->listTestGroupAndCaseNames(tr);return0;}'
+                   'if(arguments_->isListingTestLocations()){TestResulttr(*output_);registry_->listTestLocations(tr);return0;}'
+                   'if(arguments_->isReversing())registry_->reverseTests();'
+                   'if(arguments_->isShuffling()){output_->print("Test order shuffling enabled with seed: ");'
+                   'output_->print(arguments_->getShuffleSeed());output_->print("\\n");}'
+                   'while(loopCount++<repeatCount){if(arguments_->isShuffling())registry_->shuffleTests(arguments_->getShuffleSeed());'
+                   'output_->printTestRun(loopCount,repeatCount);TestResulttr(*output_);registry_->runAllTests(tr);'
+                   'failedTestCount+=tr.getFailureCount();if(tr.isFailure()){failedExecutionCount++;}}'
+                   'return(int)(failedTestCount!=0?failedTestCount:failedExecutionCount);')
+    body = norm(function_body(runner, r"void\s+CommandLineTestRunner::initializeTestRun\s*\(\s*\)\s*\{"))
+    for part in ("registry_->setGroupFilters(arguments_->getGroupFilters());", "registry_->setNameFilters(arguments_->getNameFilters());",
+                 "if(arguments_->isRunIgnored())registry_->setRunIgnored();"):
+        if part not in body:
+            raise TranslateError("CommandLineTestRunner::initializeTestRun changed shape: `%s` lacks `%s`" % (body, part))
+    out_s = strip_comments(read(F_OUTPUT))
+    expect_shape_s("TestOutput::printTestRun", function_body(out_s, r"void\s+TestOutput::printTestRun\s*\([^)]*\)\s*\{"),
+                   'if(total>1){print("Test run ");print(number);print(" of ");print(total);print("\\n");}')
+
     for fn, field in (("countTest", "testCount_"), ("countRun", "runCount_"),
                       ("countFilteredOut", "filteredOutCount_"), ("countIgnored", "ignoredCount_")):
         expect_shape("TestResult::" + fn, function_body(res, r"void\s+TestResult::%s\s*\(\s*\)\s*\{" % fn), field + "++;")
